@@ -353,6 +353,7 @@ package tcell
 //@   ensures [shape] result1 ==> result0 && sgrHdr(b, hd) && hd < s1 && s1 < s2 && s2 < (buf.off - old(buf.off) - 1) && (buf.off - old(buf.off) - 1) < len(b) && b[s1] == ';' && b[s2] == ';' && (b[(buf.off - old(buf.off) - 1)] == 'm' || b[(buf.off - old(buf.off) - 1)] == 'M')
 //@   ensures [fields] result1 ==> fieldOK(b, hd+1, s1) && fieldOK(b, s1+1, s2) && fieldOK(b, s2+1, (buf.off - old(buf.off) - 1))
 //@   ensures [oneevent] result1 ==> len(*evs) == old(len(*evs)) + 1
+//@   ensures [advance] result1 ==> old(buf.off) < buf.off && buf.off <= len(buf.buf)
 //@   ensures [pos] result1 ==> mouseAt(evs, old(len(*evs))).x == clampTo(sval(b, s1+1, s2) - 1, t.cells.w) &&
 //@                              mouseAt(evs, old(len(*evs))).y == clampTo(sval(b, s2+1, (buf.off - old(buf.off) - 1)) - 1, t.cells.h)
 //@   ensures [mods] result1 ==> mouseAt(evs, old(len(*evs))).mod == xmod(sgrFinalBtn(sval(b, hd+1, s1), b[(buf.off - old(buf.off) - 1)] == 'm', old(t.buttondn)))
@@ -679,3 +680,125 @@ package tcell
 //@   ensures [cursor] s.cursorvis == (s.cursorx >= 0 && s.cursory >= 0 && s.cursorx < s.physw && s.cursory < s.physh)
 //@   ensures [once] calls(draw) == 1 && calls(resize) == 1
 //@   modifies s.front[*], s.back.cells[*], s.back.w, s.back.h, s.back.cells, s.clear, s.cursorvis, s.Mutex
+
+// ---------------------------------------------------------------------------
+// C02 / C11: input decoding.  Every parser is a function of the unconsumed bytes b = buf.buf[buf.off:]:
+//   complete  => it consumed a non-empty prefix of b (and nothing else) and appended the events for that prefix;
+//   otherwise nothing is consumed or appended, and `partial` is true exactly when b is a proper prefix of
+//   something the parser would accept (so the driver waits instead of misreading the bytes read so far).
+// Independence of the read chunking then follows from these prefix contracts and the driver's contract
+// (composition argument in DESIGN.md; the whole-stream statement itself is not a single obligation).
+// ---------------------------------------------------------------------------
+
+//@ spec focusAt(evs *[]Event, n int) *EventFocus = asptr((*evs)[n], "EventFocus")
+//@ pred focusHdr(b []byte) = (len(b) < 1 || b[0] == 0x1b) && (len(b) < 2 || b[1] == '[') && (len(b) < 3 || b[2] == 'I' || b[2] == 'O')
+
+//@ func (*tScreen).parseFocus
+//@   arith bv
+//@   requires bufwf(buf) && buf != nil && evs != nil
+//@   let b = buf.buf[buf.off:]
+//@   ensures [complete] result1 == (len(b) >= 3 && focusHdr(b))
+//@   ensures [consumed] result1 ==> buf.off == old(buf.off) + 3 && len(*evs) == old(len(*evs)) + 1 && focusAt(evs, old(len(*evs))).Focused == (b[2] == 'I')
+//@   ensures [partial] !result1 ==> result0 == (len(b) < 3 && focusHdr(b))
+//@   ensures [untouched] !result1 ==> buf.off == old(buf.off) && len(*evs) == old(len(*evs))
+//@   ensures [buffer] buf.buf == old(buf.buf) && bufwf(buf)
+//@   loop 1: invariant [idx] -1 <= rangeindex && rangeindex < len(b) && state == rangeindex + 1 && state <= 2 && buf.off == old(buf.off) && len(*evs) == old(len(*evs))
+//@           invariant [hdr] (state >= 1 ==> b[0] == 0x1b) && (state >= 2 ==> b[1] == '[')
+//@           decreases len(b) - rangeindex
+//@   modifies buf.off, buf.lastRead, evs
+
+//@ spec keyAt(evs *[]Event, n int) *EventKey = asptr((*evs)[n], "EventKey")
+
+// parseRune: printable ASCII is one rune key (Alt if an ESC is pending); other 7-bit bytes are not runes; for bytes
+// >= 0x80 every prefix length 1..len(b) is offered to the charset decoder before the parser answers "partial"
+// (ghost counter `offered`); a decoded character consumes at least one and at most len(b) bytes and appends
+// at most one event.  Which rune the decoder yields is the decoder's (assumed) business.
+//@ func (*tScreen).parseRune
+//@   arith bv
+//@   requires bufwf(buf) && buf != nil && evs != nil && len(buf.buf) - buf.off >= 1 && !isNil(t.decoder)
+//@   let b = buf.buf[buf.off:]
+//@   let esc0 = t.escaped
+//@   ghost entry: offered = 0
+//@   ghost entry: short = false
+//@   ghost loop-entry:1: offered = 0
+//@   ghost loop-end:1: offered = l - 1
+//@   ghost loop-done:1: short = offered < len(b)
+//@   ensures [ascii] b[0] >= ' ' && b[0] <= 0x7f ==> result0 && result1 && buf.off == old(buf.off) + 1 && len(*evs) == old(len(*evs)) + 1 &&
+//@              keyAt(evs, old(len(*evs))).key == nekKey(KeyRune, rune(b[0])) && keyAt(evs, old(len(*evs))).ch == rune(b[0]) &&
+//@              keyAt(evs, old(len(*evs))).mod == (esc0 ? ModAlt : ModNone) && !t.escaped
+//@   ensures [control] b[0] < ' ' ==> !result0 && !result1
+//@   ensures [all-prefixes] b[0] >= 0x80 && !result1 ==> result0 && !short
+//@   ensures [untouched] !result1 ==> buf.off == old(buf.off) && len(*evs) == old(len(*evs)) && t.escaped == old(t.escaped)
+//@   ensures [progress] result1 ==> old(buf.off) < buf.off && buf.off <= len(buf.buf) && len(*evs) <= old(len(*evs)) + 1 && len(*evs) >= old(len(*evs))
+//@   ensures [buffer] buf.buf == old(buf.buf) && bufwf(buf)
+//@   loop 1:
+//@     invariant [l] 1 <= l && offered == l - 1 && !short && buf.off == old(buf.off) && buf.buf == old(buf.buf) && len(*evs) == old(len(*evs)) && t.escaped == old(t.escaped) && b[0] >= 0x80
+//@     decreases len(b) + 1 - l
+//@   loop 2:
+//@     invariant [n] 0 <= nIn && nIn <= len(buf.buf)
+//@     invariant [wf] bufwf(buf) && buf.buf == old(buf.buf)
+//@     invariant [adv] old(buf.off) <= buf.off && buf.off + nIn <= len(buf.buf)
+//@     invariant [prog] nIn == 0 ==> old(buf.off) < buf.off
+//@     invariant [evs] len(*evs) <= old(len(*evs)) + 1 && len(*evs) >= old(len(*evs))
+//@     decreases nIn
+//@   modifies buf.off, buf.lastRead, evs, t.escaped
+
+// parseClipboard (OSC 52 reply): ESC ] 5 2 ; c ; <base64> (BEL | ESC \).
+//@ pred oscHdr(b []byte, n int) = (n < 1 || b[0] == 0x1b) && (n < 2 || b[1] == ']') && (n < 3 || b[2] == '5') && (n < 4 || b[3] == '2') &&
+//@        (n < 5 || b[4] == ';') && (n < 6 || b[5] == 'c') && (n < 7 || b[6] == ';')
+//@ pred b64(c byte) = (c >= 'A' && c <= 'Z') || (c >= 'a' && c <= 'z') || (c >= '0' && c <= '9') || c == '+' || c == '/' || c == '='
+
+//@ func (*tScreen).parseClipboard
+//@   arith bv
+//@   requires bufwf(buf) && buf != nil && evs != nil
+//@   let b = buf.buf[buf.off:]
+//@   ghost entry: pos = 0
+//@   ghost loop-entry:1: pos = 0
+//@   ghost loop-end:1: pos = rangeindex + 1
+//@   ensures [short] len(b) <= 7 ==> !result1 && result0 == oscHdr(b, len(b))
+//@   ensures [header] result1 ==> len(b) > 7 && oscHdr(b, 7)
+//@   ensures [mismatch] len(b) > 7 && !oscHdr(b, 7) ==> !result0 && !result1
+//@   ensures [untouched] !result1 ==> buf.off == old(buf.off) && len(*evs) == old(len(*evs))
+//@   ensures [payload] result1 ==> forall j int :: 0 <= j && j < pos - (b[7+pos] == 7 ? 0 : 1) ==> b64(b[7+j])
+//@   ensures [terminator] result1 ==> 7 + pos < len(b) && (b[7+pos] == 7 || (b[7+pos] == '\\' && pos >= 1 && b[7+pos-1] == 0x1b))
+//@   ensures [consumed] result1 ==> buf.off == old(buf.off) + 7 + pos + 1
+//@   ensures [advance] result1 ==> old(buf.off) < buf.off && buf.off <= len(buf.buf)
+//@   ensures [buffer] buf.buf == old(buf.buf) && bufwf(buf)
+//@   ensures [events] len(*evs) >= old(len(*evs)) && len(*evs) <= old(len(*evs)) + 1
+//@   calls [decoded] call(Decode, recv, dst, src, ret) ==> sameslice(src, b[7 : 7 + pos - (b[7+pos] == 7 ? 0 : 1)])
+//@   loop 1:
+//@     invariant [idx] -1 <= rangeindex && rangeindex < len(b) - 7 && pos == rangeindex + 1 && (state == 0 || state == 1) && len(b) > 7 && buf.off == old(buf.off) && buf.buf == old(buf.buf) && len(*evs) == old(len(*evs))
+//@     invariant [scanned] forall j int :: 0 <= j && j < pos - state ==> b64(b[7+j])
+//@     invariant [esc] state == 1 ==> pos >= 1 && b[7+pos-1] == 0x1b
+//@     decreases len(b) - 7 - rangeindex
+//@   modifies buf.off, buf.lastRead, evs
+
+// parseFunctionKey, for an arbitrary key table without empty sequences: a match consumes exactly the matched
+// (non-empty) sequence and appends one event; otherwise nothing is touched.  WHICH key a sequence means is decided
+// per terminal description by C03 (the real function evaluated on every table entry).
+//@ func (*tScreen).parseFunctionKey
+//@   arith bv
+//@   requires bufwf(buf) && buf != nil && evs != nil && keysNonEmpty(t.keycodes) && valsNonNil(t.keycodes)
+//@   ensures [complete] result1 ==> result0 && old(buf.off) < buf.off && buf.off <= len(buf.buf) && len(*evs) == old(len(*evs)) + 1
+//@   ensures [untouched] !result1 ==> buf.off == old(buf.off) && len(*evs) == old(len(*evs)) && t.escaped == old(t.escaped)
+//@   ensures [buffer] buf.buf == old(buf.buf) && bufwf(buf)
+//@   loop 1:
+//@     invariant [scan] buf.off == old(buf.off) && len(*evs) == old(len(*evs)) && t.escaped == old(t.escaped) && buf.buf == old(buf.buf)
+//@   loop 2:
+//@     invariant [consume] 0 <= i && i <= len(esc) && len(esc) >= 1 && len(esc) <= len(buf.buf) - old(buf.off) && buf.off == old(buf.off) + i && buf.buf == old(buf.buf) && len(*evs) == old(len(*evs)) + 1
+//@     decreases len(esc) - i
+//@   modifies buf.off, buf.lastRead, evs, t.escaped
+
+// The driver: each round either a parser completes (consuming at least one byte), or - when no parser reports a
+// partial match, or the escape timeout has expired - exactly one byte is delivered (lone ESC / Alt prefix / raw
+// byte); otherwise it stops and waits for more input.  Hence it terminates, never reads outside the buffer, returns
+// with the screen lock released, and once the timeout has expired NO byte remains buffered.
+//@ func (*tScreen).collectEventsFromInput
+//@   arith math
+//@   requires bufwf(buf) && buf != nil && keysNonEmpty(t.keycodes) && valsNonNil(t.keycodes) && !isNil(t.decoder) && t.ti != nil && t.cells.w >= 1 && t.cells.h >= 1
+//@   ensures [drained] expire ==> buf.off == len(buf.buf)
+//@   ensures [wf] bufwf(buf)
+//@   loop 1:
+//@     invariant [wf] bufwf(buf) && keysNonEmpty(t.keycodes) && valsNonNil(t.keycodes) && !isNil(t.decoder) && t.ti != nil && t.cells.w >= 1 && t.cells.h >= 1
+//@     decreases len(buf.buf) - buf.off
+//@   modifies buf.off, buf.lastRead, buf.buf, t.escaped, t.buttondn, t.Mutex
